@@ -331,3 +331,55 @@ func ownedObject(addr ssa.Value) bool {
 	}
 	return false
 }
+
+// OrderLints (L10): a closure that runs as a goroutine (started with `go`, or handed to a
+// Go method such as errgroup.Group.Go) must not append to a slice it shares with its
+// siblings: the elements then arrive in the order the goroutines finish, so whatever is
+// computed from the slice's order (a stable sort's tie order, positions, "first") depends
+// on scheduling. Concurrent producers write at their own index instead.
+func OrderLints(fn *ssa.Function) []LintFinding {
+	var out []LintFinding
+	if fn.Parent() == nil || len(fn.Blocks) == 0 {
+		return nil
+	}
+	concurrent := false
+	Instrs(fn.Parent(), func(i ssa.Instruction) {
+		mc, ok := i.(*ssa.MakeClosure)
+		if !ok || mc.Fn != ssa.Value(fn) || mc.Referrers() == nil {
+			return
+		}
+		for _, r := range *mc.Referrers() {
+			switch x := r.(type) {
+			case *ssa.Go:
+				if x.Call.Value == ssa.Value(mc) {
+					concurrent = true
+				}
+			case *ssa.Call:
+				if f := CalleeFunc(&x.Call); f != nil && f.Name() == "Go" {
+					concurrent = true
+				}
+			}
+		}
+	})
+	if !concurrent {
+		return nil
+	}
+	Instrs(fn, func(i ssa.Instruction) {
+		call, ok := i.(*ssa.Call)
+		if !ok {
+			return
+		}
+		if b, ok := call.Call.Value.(*ssa.Builtin); !ok || b.Name() != "append" || len(call.Call.Args) == 0 {
+			return
+		}
+		for _, rt := range sliceRoots(call.Call.Args[0]) {
+			if rt.kind != "mem" {
+				continue
+			}
+			if fv, ok := rt.addr.(*ssa.FreeVar); ok {
+				out = append(out, LintFinding{i, "a goroutine appends to " + fv.Name() + ", which it shares with the goroutines started next to it: the elements end up in the order the goroutines finish, so anything that depends on their order (a stable sort's ties, positions) changes from run to run; write each result at its own index instead"})
+			}
+		}
+	})
+	return out
+}
